@@ -137,6 +137,13 @@ type Run struct {
 	pureInsts  map[string]*pureInst
 	guards     map[string]*Term
 	topRets    []retRec
+	frameItemsC    []frameItem
+	frameItemsDone bool
+	entryEnv       *SpecEnv
+	entryState     *State
+	writes         map[string][]string // probe: heap key -> refs written (names)
+	sliceArr       map[string]string   // slice term name -> backing array ref name (for slices built from a known allocation)
+	probeCtr0      int
 	axiomsDone map[string]bool
 	axiomsUsed []string
 	tracker    *heapTracker
@@ -393,20 +400,52 @@ func (r *Run) elemIndex(slice, idx Term) Term {
 	return app("Int", "sl_ix", app("Int", "sl_off", slice), idx)
 }
 
+// noteWrite records (during a loop probe) which object a heap write targets.
+func (r *Run) noteWrite(key string, ref string) {
+	if r.writes != nil {
+		r.writes[key] = append(r.writes[key], ref)
+	}
+}
+
+func (r *Run) isFreshRef(ref string) bool {
+	if !strings.HasPrefix(ref, "new_") {
+		return false
+	}
+	n := 0
+	for _, c := range ref[4:] {
+		if c < '0' || c > '9' {
+			return false
+		}
+		n = n*10 + int(c-'0')
+	}
+	return n > r.probeCtr0
+}
+
+// arrRefOf: the backing-array ref of a slice term, when the slice was built from a known allocation.
+func (r *Run) arrRefOf(slice Term) string {
+	if a, ok := r.sliceArr[slice.S]; ok {
+		return a
+	}
+	return "?"
+}
+
 func (r *Run) writeRoot(st *State, l *Loc, v Term) {
 	switch l.kind {
 	case rootLocal:
 		st.locals[l.alloc] = r.def("l_"+mangle(l.alloc.Comment), v)
 	case rootHeap:
 		key := r.eng.heapKeyObj(l.T)
+		r.noteWrite(key, l.ref.S)
 		r.heapSet(st, key, store(r.heapGet(st, key), l.ref, v))
 	case rootElem:
 		key := r.eng.heapKeyArr(l.T)
+		r.noteWrite(key, r.arrRefOf(l.ref))
 		A := r.heapGet(st, key)
 		arr := app("Int", "sl_arr", l.ref)
 		inner := sel(A, arr)
 		r.heapSet(st, key, store(A, arr, store(inner, r.elemIndex(l.ref, l.idx), v)))
 	case rootGlobal:
+		r.noteWrite(r.eng.heapKeyGlobal(l.glob), "?")
 		r.heapSet(st, r.eng.heapKeyGlobal(l.glob), v)
 	}
 }
@@ -487,6 +526,7 @@ type loopInfo struct {
 	ord       int
 	modLocals []*ssa.Alloc
 	modKeys   []string
+	freshOnly map[string]bool
 	decHead   Term
 	nBack     int
 }
